@@ -230,3 +230,179 @@ func notesOf(a *Analysis) []string {
 func missing(rule, what string) []Obligation {
 	return []Obligation{{Rule: rule, Construct: what, Verdict: AnchorLost, Detail: "anchor not found in the current source: " + what}}
 }
+
+// Roots returns the entry functions of package raft: declared functions with no in-scope
+// synchronous caller, plus every go target. Anonymous functions are reached through their parents.
+func (p *Program) Roots() []*ssa.Function {
+	var out []*ssa.Function
+	for _, fn := range p.SortedFuncs() {
+		if fn.Parent() != nil {
+			continue
+		}
+		if fn.Pkg == nil || fn.Pkg.Pkg.Path() != ModulePath {
+			if o := fn.Origin(); o == nil || o.Pkg == nil || o.Pkg.Pkg.Path() != ModulePath {
+				continue
+			}
+		}
+		sync := 0
+		for _, cs := range p.Callers[fn] {
+			if _, isGo := cs.Instr.(*ssa.Go); !isGo {
+				sync++
+			}
+		}
+		if sync == 0 || p.GoTargets[fn] {
+			out = append(out, fn)
+		}
+	}
+	return out
+}
+
+// writesAny reports whether fn may (transitively, synchronously) write one of the fields.
+func (p *Program) writesAny(fn *ssa.Function, fields ...*types.Var) bool {
+	e := p.Effects(fn)
+	for _, f := range fields {
+		if f != nil && e.Fields[f] {
+			return true
+		}
+	}
+	return false
+}
+
+// discover runs the interpreter without atoms so that hook sees every instruction in every
+// inlined frame reachable from root.
+func (p *Program) discover(root *ssa.Function, hook func(a *Analysis, f *Frame, in ssa.Instruction)) *Analysis {
+	a := NewAnalysis(p, NewSpace())
+	a.Hook = func(a *Analysis, f *Frame, in ssa.Instruction, st State) State {
+		hook(a, f, in)
+		return st
+	}
+	a.Run(root, nil)
+	return a
+}
+
+// condPairs returns the canonical operand pair of a comparison used as a branch condition.
+func (p *Program) condPair(f *Frame, in ssa.Instruction) (string, string, bool) {
+	iff, ok := in.(*ssa.If)
+	if !ok {
+		return "", "", false
+	}
+	c := iff.Cond
+	for {
+		u, ok := c.(*ssa.UnOp)
+		if !ok || u.Op != token.NOT {
+			break
+		}
+		c = u.X
+	}
+	b, ok := c.(*ssa.BinOp)
+	if !ok {
+		return "", "", false
+	}
+	if _, ok := cmpMask(b.Op); !ok {
+		return "", "", false
+	}
+	return p.Canon(f, b.X).S, p.Canon(f, b.Y).S, true
+}
+
+// errFate classifies what happens to the error result of a call: the error must be compared
+// with nil and the non-nil edge must lead to a no-return call ("fatal") or a return ("returned").
+func (p *Program) errFate(call ssa.Value) string {
+	var errVals []ssa.Value
+	if tup, ok := call.Type().(*types.Tuple); ok {
+		refs := call.Referrers()
+		if refs != nil {
+			for _, r := range *refs {
+				if ex, ok := r.(*ssa.Extract); ok && ex.Index == tup.Len()-1 {
+					errVals = append(errVals, ex)
+				}
+			}
+		}
+	} else {
+		errVals = append(errVals, call)
+	}
+	fate := "dropped"
+	for _, ev := range errVals {
+		refs := ev.Referrers()
+		if refs == nil {
+			continue
+		}
+		for _, r := range *refs {
+			b, ok := r.(*ssa.BinOp)
+			if !ok || (b.Op != token.NEQ && b.Op != token.EQL) {
+				continue
+			}
+			brefs := b.Referrers()
+			if brefs == nil {
+				continue
+			}
+			for _, br := range *brefs {
+				iff, ok := br.(*ssa.If)
+				if !ok {
+					continue
+				}
+				succ := iff.Block().Succs[0]
+				if b.Op == token.EQL {
+					succ = iff.Block().Succs[1]
+				}
+				if p.blockEndsNoReturn(succ) {
+					return "fatal"
+				}
+				if _, ok := succ.Instrs[len(succ.Instrs)-1].(*ssa.Return); ok {
+					fate = "returned"
+				}
+			}
+		}
+	}
+	return fate
+}
+
+// blockEndsNoReturn reports whether every path from b hits a no-return call before leaving
+// a short straight-line region (b and single-successor chains).
+func (p *Program) blockEndsNoReturn(b *ssa.BasicBlock) bool {
+	for depth := 0; depth < 4 && b != nil; depth++ {
+		for _, in := range b.Instrs {
+			if ci, ok := in.(ssa.CallInstruction); ok {
+				if _, isDefer := in.(*ssa.Defer); isDefer {
+					continue
+				}
+				if p.IsNoReturnCall(ci.Common()) {
+					return true
+				}
+			}
+			if _, ok := in.(*ssa.Panic); ok {
+				return true
+			}
+		}
+		if len(b.Succs) != 1 {
+			return false
+		}
+		b = b.Succs[0]
+	}
+	return false
+}
+
+// isSectionEnd reports whether in ends a critical section of the node mutex or leaves the
+// node (unlock, cond wait, transport send). Deferred unlocks count when they are run.
+func (a *Analysis) isSectionEnd(in ssa.Instruction) (string, bool) {
+	ci, ok := in.(ssa.CallInstruction)
+	if !ok {
+		return "", false
+	}
+	if _, isDefer := in.(*ssa.Defer); isDefer && !a.AtRunDefers {
+		return "", false
+	}
+	if _, isGo := in.(*ssa.Go); isGo {
+		return "", false
+	}
+	c := ci.Common()
+	if op, recv := isMutexOp(c); op != "" {
+		if (op == "Mutex.Unlock" && isNodeMutex(recv)) || op == "Cond.Wait" {
+			return op, true
+		}
+		return "", false
+	}
+	if c.IsInvoke() && ifaceOf(c) == "Transport" && strings.HasPrefix(c.Method.Name(), "Send") {
+		return "Transport." + c.Method.Name(), true
+	}
+	return "", false
+}
